@@ -290,3 +290,111 @@ def rule_dynamic_variable_registration(ctx):
             paired = [k for k in kinds if (b.dominates(k, s) and b.postdominates(s, k)) or (b.dominates(s, k) and b.postdominates(k, s))]
             r.check(bool(paired), "%s|table-entry" % b.id, "kind-not-registered", "the variable's kind `Argument(id)` is registered on the same path as the id->variable entry", "an argument's variable is entered in the id->variable table but its kind `Argument(id)` is registered only on some paths: models of the other paths are decoded without this argument", s.loc())
     r.floor(n_c, 2, "id->variable table entries made for new arguments")
+
+
+def rule_removal_cleans_the_tables(ctx):
+    """C08: what both dynamic encoders forget when an argument is removed"""
+    prog = ctx.prog
+    from ..prov import prov, show, subterms
+    from .equiv import indexed_stores
+    from .grounded import _is_call
+
+    r = ctx.rule(
+        "removal-cleans-the-tables",
+        "both dynamic encoders, on the removal of an argument: the variable->argument table entry of its variable is overwritten with a kind "
+        "that is no argument, on the paths that add the retirement clause (models are decoded through that table); its entry in every "
+        "per-argument table of the encoder (id->variable, id->selector) is cleared; and a selector recorded for it is handed to the function "
+        "that retires selectors (its constraints would otherwise stay switched on for a variable that is now fixed)",
+    )
+    encs = [p for p, a in prog.adts.items() if p.startswith("dynamics::") and p.endswith("::DynamicConstraintsEncoder")]
+    if not r.require_anchor(len(encs) >= 2, "the two DynamicConstraintsEncoder types"):
+        return
+    n = 0
+    for p in sorted(encs):
+        adt = prog.adt(p)
+        rm = prog.lib(p + "::remove_argument")
+        if not r.require_anchor(rm, p + "::remove_argument"):
+            continue
+        bodies = prog.with_closures(rm)
+        opt_tables = [f["name"] for v in adt["variants"] for f in v["fields"] if f["ty"].replace(" ", "") == "alloc::vec::Vec<core::option::Option<usize>>"]
+        kind_tables = [f["name"] for v in adt["variants"] for f in v["fields"] if re.search(r"Vec<.*SolverVarType>", f["ty"])]
+        stores = [(y, st) for y in bodies for st in indexed_stores(prog, y)]
+
+        def field_of(y, op):
+            out = set()
+            for e in prov(prog, y, op):
+                if e[0] == "param" and e[2] == 1 and e[3]:
+                    out.add(e[3][0])
+            return out
+
+        def by_removed_id(y, op):
+            return any(_is_call(t, r"Label::id$", 1) and any(_is_call(z, r"get_argument$|get_label$") for z in subterms(t)) for e in prov(prog, y, op) for t in subterms(e))
+
+        # (1) the kind table
+        anchor = rm.id + "|kind"
+        n += 1
+        ks = [(y, st) for y, st in stores if field_of(y, st.recv) & set(kind_tables)]
+        resets = [(y, st) for y, st in ks if any(v[0] == "agg" and v[1] not in ("Argument",) for v in st.vals) and not any(v[0] == "agg" and v[1] == "Argument" for v in st.vals)]
+        adds = [s for y in bodies for s in y.calls() if callee_matches(callee_of(s), r"sat_solver::SatSolver::add_clause$") and y is rm]
+        if not kind_tables:
+            r.ok(anchor, "NOT decided: no variable->kind table among the fields of %s" % p.rsplit("::", 1)[-1], rm.loc())
+        elif not resets:
+            r.violation(anchor, "kind-not-reset", "remove_argument leaves the removed variable registered as an argument in the variable->argument table: a model is decoded with an argument that no longer exists", rm.loc())
+        else:
+            y, st = resets[0]
+            via_table = any(_is_call(t, r"Index::index$", 2) and t[2][0][0] == "param" and t[2][0][3] and t[2][0][3][0] in opt_tables for e in prov(prog, y, st.idx) for t in subterms(e))
+            r.check(via_table, anchor, "kind-reset-index", "the entry overwritten is that of the removed argument's variable", "the variable->argument entry overwritten on removal is not the one of the removed argument's variable (%s)" % "; ".join(show(e)[:60] for e in prov(prog, y, st.idx)), st.loc())
+            if adds and y is rm:
+                a = adds[0]
+                paired = (rm.dominates(st.site, a) and rm.postdominates(a, st.site)) or (rm.dominates(a, st.site) and rm.postdominates(st.site, a))
+                r.check(paired, anchor, "kind-reset-not-paired", "on the same paths as the retirement clause", "the variable is fixed by the retirement clause on paths where its variable->argument entry is not reset (or the other way round)", st.loc())
+        # (2) per-argument Option tables: cleared at the removed id
+        pertables = set()
+        for b in prog.lib_bodies():
+            fn = prog.enclosing_fn(b)
+            if not fn.impl or fn.impl.get("self_adt") != p:
+                continue
+            for st in indexed_stores(prog, b):
+                fs = field_of(b, st.recv) & set(opt_tables)
+                if fs and any(v[0] == "agg" and v[1] == "Some" for v in st.vals):
+                    pertables |= fs
+            for s in b.calls():
+                if callee_decl(callee_of(s)) == "alloc::vec::Vec::push" and field_of(b, s.node["args"][0]) & set(opt_tables):
+                    pertables |= field_of(b, s.node["args"][0]) & set(opt_tables)
+        for t in sorted(pertables):
+            n += 1
+            anchor = "%s|table:%s" % (rm.id, t)
+            cl = [(y, st) for y, st in stores if t in field_of(y, st.recv) and ("agg", "None", ()) in st.vals]
+            if not cl:
+                r.violation(anchor, "entry-not-cleared", "remove_argument does not clear the removed argument's entry of `%s`: the entry outlives the argument (and is found again when the id or the label is looked at later)" % t, rm.loc())
+                continue
+            y, st = cl[0]
+            r.check(by_removed_id(y, st.idx), anchor, "cleared-at-another-id", "cleared at the id of the removed argument", "`%s` is cleared at %s, not at the id of the removed argument" % (t, "; ".join(show(e)[:60] for e in prov(prog, y, st.idx))), st.loc())
+        # (3) a recorded selector is retired
+        retire = None
+        lit_vecs = [f["name"] for v in adt["variants"] for f in v["fields"] if f["ty"] == "alloc::vec::Vec<sat::sat_solver::Literal>"]
+        for b in prog.lib_bodies():
+            if b.kind != "closure" and b.impl and b.impl.get("self_adt") == p and lit_vecs:
+                for s in b.calls():
+                    if callee_decl(callee_of(s)) in ("alloc::vec::Vec::swap_remove", "alloc::vec::Vec::remove", "alloc::vec::Vec::retain") and field_of(b, s.node["args"][0]) & set(lit_vecs):
+                        retire = b
+        sel_tables = sorted(pertables - {t for y, st in resets for e in prov(prog, y, st.idx) for z in subterms(e) if _is_call(z, r"Index::index$", 2) and z[2][0][0] == "param" and z[2][0][3] for t in [z[2][0][3][0]]})
+        if retire is not None and sel_tables:
+            n += 1
+            anchor = rm.id + "|selector"
+            calls = [(y, s) for y in bodies for s in y.calls() if prog.body_for_callee(callee_of(s), y) is retire]
+            good = False
+            for y, s in calls:
+                for a in s.node["args"][1:]:
+                    for e in prov(prog, y, a):
+                        if any(_is_call(z, r"Index::index$", 2) and z[2][0][0] == "param" and z[2][0][3] and z[2][0][3][0] in sel_tables and any(_is_call(q, r"Label::id$") for q in subterms(z[2][1])) for z in subterms(e)):
+                            good = True
+            # ... or through the re-encoding helpers, which retire what is recorded before they record anew
+            via = [(y, s) for y in bodies for s in y.calls() if (prog.body_for_callee(callee_of(s), y) is not None and prog.body_for_callee(callee_of(s), y).impl and prog.body_for_callee(callee_of(s), y).impl.get("self_adt") == p and retire in prog.reachable_from([prog.body_for_callee(callee_of(s), y)], virtual_dispatch=False).values() and any(by_removed_id(y, a) for a in s.node["args"][1:]))]
+            if good:
+                r.ok(anchor, "the selector recorded for the removed argument is retired", calls[0][1].loc())
+            elif via:
+                r.ok(anchor, "NOT decided: the removed argument's id is handed to %s, which can reach the retirement" % via[0][1].node["callee"]["decl"].rsplit("::", 1)[-1], via[0][1].loc())
+            else:
+                r.violation(anchor, "selector-not-retired", "remove_argument does not retire the selector recorded for the removed argument (`%s`): the constraints it guards stay among the active assumptions although the argument's variable is now fixed" % "/".join(sel_tables), rm.loc())
+    r.floor(n, 5, "tables judged on the removal of an argument")
